@@ -180,7 +180,13 @@ func (x *Exec) enterLoopHeader(st *State, fr *Frame, from, to *ssa.BasicBlock, o
 				t := x.evalClause(st, fr, con, inv, nil)
 				x.check(st, t, "invariant-entry", fmt.Sprintf("loop%d.%s", ord, inv.ID), x.site(to.Instrs[0].Pos()), inv.Text)
 			}
+			for i, ai := range x.autoInvariants(st, fr, to, li) {
+				x.check(st, ai, "invariant-entry", fmt.Sprintf("loop%d.auto#%d", ord, i+1), x.site(to.Instrs[0].Pos()), "counter stays at or above its initial value")
+			}
 			x.havocLoop(st, fr, to, li)
+			for _, ai := range x.autoInvariants(st, fr, to, li) {
+				x.assume(st, ai, "auto invariant")
+			}
 			for _, inv := range invs {
 				x.assume(st, x.evalClause(st, fr, con, inv, nil), "invariant "+inv.ID)
 			}
@@ -190,6 +196,9 @@ func (x *Exec) enterLoopHeader(st *State, fr *Frame, from, to *ssa.BasicBlock, o
 			fr.inLoop[h] = true
 			x.runFrom(st, fr, to, n, ret)
 			return
+		}
+		for i, ai := range x.autoInvariants(st, fr, to, li) {
+			x.check(st, ai, "invariant-preserved", fmt.Sprintf("loop%d.auto#%d", ord, i+1), x.site(to.Instrs[0].Pos()), "counter stays at or above its initial value")
 		}
 		for _, inv := range invs {
 			t := x.evalClause(st, fr, con, inv, nil)
@@ -217,7 +226,11 @@ func (x *Exec) enterLoopHeader(st *State, fr *Frame, from, to *ssa.BasicBlock, o
 		delete(fr.inLoop, h)
 	} else {
 		if fr.inLoop[h] {
-			// converted to a cut loop with invariant true
+			// converted to a cut loop with invariant true (+ automatically derived counter bounds)
+			x.evalPhis(st, fr, from, to)
+			for i, ai := range x.autoInvariants(st, fr, to, li) {
+				x.check(st, ai, "invariant-preserved", fmt.Sprintf("loop%d.auto#%d", ord, i+1), x.site(to.Instrs[0].Pos()), "counter stays within its automatically derived bounds")
+			}
 			x.endPath(st, "loop back-edge (cut, invariant true)")
 			return
 		}
@@ -439,4 +452,91 @@ func (x *Exec) staticLoc(addr ssa.Value, outer *Frame, blocks map[int]bool) (roo
 		return "F|" + typeKey(pt.Elem()), "", true
 	}
 	return "", "", false
+}
+
+func isConst(v ssa.Value) bool { _, ok := v.(*ssa.Const); return ok }
+
+// autoInvariants derives, for every integer phi of a loop header that starts at a constant and
+// is only ever increased by a positive constant inside the loop (the hidden index of a range
+// loop, a plain i++ counter), the fact "phi >= initial value". The fact is checked like a user
+// invariant (on entry and at every back edge), so it is never an unchecked assumption.
+func (x *Exec) autoInvariants(st *State, fr *Frame, header *ssa.BasicBlock, li *loopInfo) []*Term {
+	var out []*Term
+	body := li.body[header.Index]
+	for _, in := range header.Instrs {
+		phi, ok := in.(*ssa.Phi)
+		if !ok {
+			break
+		}
+		if _, isInt := isIntType(phi.Type()); !isInt {
+			continue
+		}
+		var init *ssa.Const
+		good := true
+		for i, e := range phi.Edges {
+			pred := header.Preds[i]
+			if !body[pred.Index] {
+				c, isC := e.(*ssa.Const)
+				if !isC || (init != nil && init.Int64() != c.Int64()) {
+					good = false
+					break
+				}
+				init = c
+				continue
+			}
+			b, isB := e.(*ssa.BinOp)
+			if !isB || b.Op != token.ADD {
+				good = false
+				break
+			}
+			k, isK := b.Y.(*ssa.Const)
+			if b.X != ssa.Value(phi) || !isK || k.Int64() <= 0 {
+				good = false
+				break
+			}
+		}
+		if !good || init == nil {
+			continue
+		}
+		cur, has := fr.regs[phi]
+		if !has || cur.K != kScalar {
+			continue
+		}
+		raw := *cur.T
+		raw.lo, raw.hi = nil, nil
+		if cur.T.lit != nil {
+			out = append(out, Ge(cur.T, IntLit(init.Int64())))
+		} else {
+			out = append(out, app(SBool, ">=", &raw, IntLit(init.Int64())))
+		}
+		// range-index shape: the header leaves the loop unless phi+k < bound, with bound fixed
+		// outside the loop: then phi+k <= bound holds at every arrival at the header
+		if iff, isIf := header.Instrs[len(header.Instrs)-1].(*ssa.If); isIf {
+			if c, isB := iff.Cond.(*ssa.BinOp); isB && c.Op == token.LSS {
+				if inc, isInc := c.X.(*ssa.BinOp); isInc && inc.Op == token.ADD && inc.X == ssa.Value(phi) {
+					if k, isK := inc.Y.(*ssa.Const); isK && k.Int64() > 0 {
+						outside := true
+						if yi, isInstr := c.Y.(ssa.Instruction); isInstr && yi.Block() != nil && body[yi.Block().Index] {
+							outside = false
+						}
+						if bv, has := fr.regs[c.Y]; outside && (has || isConst(c.Y)) {
+							if !has {
+								bv = x.val(st, fr, c.Y)
+							}
+							if bv.K == kScalar && bv.T.sort == SInt {
+								braw := *bv.T
+								braw.lo, braw.hi = nil, nil
+								var l *Term = Add(&raw, IntLit(k.Int64()))
+								if cur.T.lit != nil {
+									l = Add(cur.T, IntLit(k.Int64()))
+								}
+								out = append(out, app(SBool, "<=", l, &braw))
+							}
+						}
+					}
+				}
+			}
+		}
+	}
+	return out
 }
